@@ -418,7 +418,7 @@ func main() {
 func raceFull(rnd *rand.Rand, key string, round int) {
 	verdict, detail := "ok", ""
 	total, blockedTotal := 0, 0
-	for rep := 0; rep < 300 && verdict == "ok"; rep++ {
+	for rep := 0; rep < 1000 && verdict == "ok"; rep++ {
 		qcap := 4
 		ch := make(chan ncsclient.ReceiptPayload, qcap)
 		for i := 0; i < qcap-1; i++ {
